@@ -4,15 +4,34 @@ CONFIG = dict(
                  # thorough tier only: the same harness built with `go build -race`, quick-sized case set; empty in the quick tier
                  dict(harness='c13race', driver='c13', shrink_field='changes')],
         rule='change sets given to the real RenameAnalysis.Consume (fabricated object.Change values and cached blobs; hashes are free 20-byte '
-             'inputs): all change lists of length <=4 (thorough <=5) over {add h, delete h, modify} with three hashes whose bytes cross; random '
-             'sets of up to 200 changes over 1..6 hashes in adversarial byte patterns (tiny blobs: stage 1 only); families of similar text and '
-             'binary blobs of 30..300 bytes with thresholds -1..250 and timeouts 1 ns .. 1 h (stage 2, both winners, timeout cuts); one-line blobs '
-             'on the exact boundaries of sizesAreClose and of the 32-byte minimum; 55..75 candidates with the only similar one around rank 50 '
-             '(candidate cap); duplicate paths / a path both added and deleted / malformed empty changes; one set (thorough: 12) with more than '
-             '1000 leftovers (cap 1); GOMAXPROCS 1 and 16 with 0..2 goroutines spinning on runtime.Gosched. Non-trivial = at least one addition '
-             'and one deletion; distinct = distinct threshold, timeout, scheduling parameters, blob table and change list.',
+             'inputs; every entry carries a tree-entry mode - 100644, 100755, 120000, 100664, 160000 - assigned per case as all regular / every '
+             'side on its own / one mode on the deleted and another on the added side (git mv + chmod, file <-> symlink) / two modes at random): '
+             'all change lists of length <=4 (thorough <=5) over {add h, delete h, modify} with three hashes whose bytes cross; '
+             'stream exm/exmt/exms: all lists of length <=4 / <=3 / <=3 (thorough 5/4/4) over {add, delete} x 2 crossing hashes x '
+             '{regular, executable} with 5-byte blobs, with 40-byte blobs and timeout 1 ns, with 40-byte blobs and the default timeout; '
+             'hashpat/hashmix: random sets of up to 200 changes over 1..6 hashes in adversarial byte patterns, tiny blobs or blobs of '
+             '0,1,19,31,32,33,48 bytes with any threshold and timeout; modes: identical content moved with and without a mode change in groups '
+             'of 0..3 deletions x 0..3 additions per hash at sizes 0,1,8,31,32,33,40,64,100,200 with same-text / one-byte-longer / other-text '
+             'neighbours, thresholds -1..250 incl. 0,1,99,100, timeouts 1 ns .. 1 h, the same path on both sides; sim/timeout: families of similar '
+             'text and binary blobs of 30..300 bytes (stage 2, both winners, timeout cuts); midrun: 4..10 deleted x added mostly dissimilar blobs, '
+             'Consume timed without a timeout and then run with 3..97 % of that time (the timeout expires inside stage 2); thresh: one-line blobs '
+             'on the exact boundaries of sizesAreClose and of the 32-byte minimum, plus the real sizesAreClose on 12 size pairs per case from '
+             '{0,1,2,31,32,33,99..101,S,S*thr/100+-1,2^15,2^16,2^31-1,2^31,2^32,2^32+1,2^40}; cap: 55..75 candidates with the only similar one '
+             'around rank 50, half of them with a second deleted file whose identical content is added under the farthest name with another '
+             'mode; weird: duplicate paths / a path both added and deleted / malformed empty changes; big: 2300 changes, more than 1000 leftovers '
+             '(cap 1), modes varied; limit: exactly 999,1000,1001,1002 leftovers (thorough also 1003, 2000) where the cap decides the pairing; '
+             'scale (stage 1, blobs < 32 bytes): 1000..70001 changes (thorough: 30 more of 1000..131073 changes at 2^15+-1, 2^16+-1, and '
+             '500000 and 1000000 changes) over 1..10007 (thorough ..131073) hashes carrying an index big-endian / little-endian / behind a '
+             '17-byte common prefix / in the middle / random, change order ascending, descending, random, periodic with periods 2^k and 2^k+-1, '
+             'additions every other / first half / 60 % / one in 64; scale2 (stage 2): 1000, 3000, 10000 changes (thorough 20000, 30000, 100000) '
+             'in 40..2000 exact-size classes at threshold 100 or 3 %-classes at threshold 99, the same text under two hashes; large cases '
+             '(> 4000 changes) are judged by the fast oracles repairing_fast_b / exact_at per hash bucket and replayed through the model once; '
+             'GOMAXPROCS 1 and 16 with 0..2 goroutines spinning on runtime.Gosched. Non-trivial = at least one addition '
+             'and one deletion; distinct = distinct threshold, timeout, scheduling parameters, blob table and change list (with modes).',
         exhaustive_note='all change lists of length <=4 (quick) / <=5 (thorough) over add/delete of 3 crossing hashes and a modification, '
-                        'with small blobs (stage 1 and the assembly), enumerated completely',
+                        'with small blobs (stage 1 and the assembly), and all lists of length <=4 / <=3 / <=3 (thorough 5/4/4) over add/delete of '
+                        '2 crossing hashes under 2 file modes with 5-byte blobs / 40-byte blobs and an expired timeout / 40-byte blobs and the '
+                        'default timeout, enumerated completely',
         assumptions=[
             'sort.Sort (Go standard library) returns a permutation of its input in which no later element is Less than an earlier one, '
             'provided Less is a strict total order on the elements (proved for 20-byte hashes: C13_less_total); Section hypotheses of '
@@ -33,13 +52,19 @@ CONFIG = dict(
             'WaitGroup, final select): not tied to the code by replay, only by reading',
             'the OCaml port of Go 1.23 pdqsort in ocaml/c13/driver.ml that supplies the model\'s sort oracles (cross-checked on every case '
             'against the permutation the real sort.Sort produced; a wrong port can only cause a MISMATCH)',
+            'tree-entry modes are no field of the model\'s entry: the driver packs (path number, mode) into the opaque path number for the '
+            'model run and the fine correspondence (so a mode that is altered or lost is a MISMATCH) and strips the mode for the property '
+            'oracles, which are about paths and content hashes',
+            'on cases above 4000 changes the driver partitions the changes by content hash (OCaml Hashtbl) before it calls the extracted '
+            'exact_at on each bucket; that the bucket of a hash = filter (touches h) suffices is C13_exact_by_buckets_sound',
         ],
         level_text='proof (Coq): C13_repairing, C13_exact, C13_less_total, C13_total for every input, similarity predicate, candidate order, '
                    'timeout cut and winner; C13_no_deadlock / C13_result_available / C13_runs_finite for the channel protocol; partial for '
                    'data-race freedom',
         level_note='Proved about the Gallina model, which every harness case ties to the Go code (model output = implementation output for some '
                    'winner and cut; stage 1 compared exactly). The property oracles that judge the implementation\'s own outputs '
-                   '(repairing_b, exact_b) are extracted from Coq and proved sound (C13_repairing_oracle_sound, C13_exact_oracle_sound). '
+                   '(repairing_b, exact_b; on large cases repairing_fast_b and exact_at per hash bucket) are extracted from Coq and proved sound '
+                   '(C13_repairing_oracle_sound, C13_exact_oracle_sound, C13_repairing_fast_oracle_sound / _complete, C13_exact_by_buckets_sound). '
                    'Modelled rather than verified: sort.Sort, sort.Slice+Levenshtein, blobsAreClose (opaque), the Go scheduler and channels '
                    '(RenamesChan.v is a hand-written transition system). PARTIAL: "without data races" in the sense of the Go memory model '
                    'cannot be stated in this model; supporting evidence only: the thorough tier runs the harness built with -race '
